@@ -156,6 +156,13 @@ func IsFreshObject(v ssa.Value) bool {
 	switch x := v.(type) {
 	case *ssa.Alloc:
 		return true
+	case *ssa.FieldAddr:
+		// a struct embedded by value in a fresh object is part of that object (`&T{inner: inner{…}}`)
+		if _, isPtr := x.Type().Underlying().(*types.Pointer); isPtr {
+			if _, isStruct := x.Type().Underlying().(*types.Pointer).Elem().Underlying().(*types.Struct); isStruct {
+				return IsFreshObject(x.X)
+			}
+		}
 	case *ssa.Call:
 		if f := StaticCallee(x); f != nil {
 			return ReturnsFresh(f)
